@@ -439,3 +439,62 @@ def qx3(ctx):
                                             found = True
                 ctx.check(found, '%s:gate:%s' % (b.path, gk), b.span, '%s gate present: reject edge -> quiet exit, accept edge dominates the WAL write' % gk,
                           'gate "%s" missing in %s (no test before the WAL write whose reject edge leads to a quiet exit): a rejected/no-op call would be logged' % (gk, b.path.split('::')[-1]))
+
+
+@rule('BY7', ['C15'], floor=1, template='accumulation')
+def by7(ctx):
+    """A byte count produced inside a loop is ACCUMULATED into the running total (total = total + n), never
+    assigned over it."""
+    n = 0
+    for b in ctx.f.bodies.values():
+        if b.generic_dup() or not (b.path.startswith(MRL) or b.path.startswith('recordlog::writer::RecordWriter')):
+            continue
+        loops = b.loops()
+        if not loops:
+            continue
+        fl = flow_of(b)
+        for c in counting_writer_calls(ctx, b):
+            L = [x for x in loops if c.block in x['blocks']]
+            if not L:
+                continue
+            inside = set()
+            for x in L[0]['blocks']:
+                for p in range(b.pstart[x], b.pterm[x] + 1):
+                    inside.add(p)
+            t = fl.forward(set(fl.call_result_nodes(c)), skip_mem=True)
+            # locals assigned inside the loop from the count and read after / across iterations
+            exits = [e for e in b.exits() if e['kind'] == 'ok']
+            back_exit = set()
+            for e in exits:
+                if e['ops']:
+                    back_exit |= fl.backward(set(fl.op_nodes(e['ops'][0])), skip_mem=True)
+            n += 1
+            bad = []
+            okacc = 0
+            for l, ds in b.defs.items():
+                if ('l', l) not in t or ('l', l) not in back_exit:
+                    continue
+                if not any(p in inside for (p, k, d) in ds) or not any(p not in inside for (p, k, d) in ds):
+                    continue   # accumulators are initialised outside the loop and updated inside
+                for (p, kind, data) in ds:
+                    if p not in inside or kind != 'assign':
+                        continue
+                    rv = data['rv']
+                    src_l = op_local(rv['op']) if rv['k'] == 'use' else None
+                    if rv['k'] == 'use' and rv['op']['k'] in ('copy', 'move') and rv['op']['place']['p']:
+                        src_l = rv['op']['place']['l']
+                    is_acc = False
+                    if src_l is not None:
+                        for (p2, k2, d2) in b.defs.get(src_l, []):
+                            if k2 == 'assign' and d2['rv']['k'] == 'binop' and d2['rv']['op'].startswith('Add'):
+                                ops = [d2['rv']['a'], d2['rv']['b']]
+                                if any(op_local(o) == l for o in ops):
+                                    is_acc = True
+                    if is_acc:
+                        okacc += 1
+                    else:
+                        bad.append(b.loc(p))
+            ctx.check(okacc > 0 and not bad, '%s:%s:accumulated' % (b.path, c.path.split('::')[-1]), where(b, c.point), 'the count is added to the running total inside the loop',
+                      'inside the loop the running byte total is overwritten (at %s) instead of increased: only the last entry is reported' % (bad[:1] or ['no accumulation found']))
+    if n == 0:
+        ctx.missing('loop-writers', 'no counting writer call inside a loop')
